@@ -60,6 +60,14 @@ Theorem C05_commute : forall m o1 o2, mwf m -> independent o1 o2 ->
 Proof. exact spec_commute. Qed.
 Print Assumptions C05_commute.
 
+(* two operation sequences that are pairwise independent (two goroutines of the concurrent tie):
+   EVERY interleaving leaves the same map contents as running one sequence after the other *)
+Theorem C05_interleave : forall l1 l2 l, interleave l1 l2 l ->
+  (forall x y, In x l1 -> In y l2 -> independent x y) ->
+  forall m, mwf m -> map_equiv (run_from m l) (run_from m (l1 ++ l2)).
+Proof. exact interleave_equiv. Qed.
+Print Assumptions C05_interleave.
+
 (* the boolean checker the model runner applies to the implementation's answers is the relation of C05_refines *)
 Theorem C05_checker_is_relation : forall m q a, answer_okb m q a = true <-> answer_ok m q a.
 Proof. exact answer_okb_iff. Qed.
